@@ -15,6 +15,7 @@ mod obs;
 mod plan;
 mod rng;
 mod runner;
+mod scen_dict;
 mod scen_image;
 mod scen_worker;
 mod world;
@@ -27,6 +28,9 @@ use crate::core::{Scenario, Tier};
 fn scenario(id: &str) -> Option<Box<dyn Scenario>> {
     match id {
         "C04" => Some(Box::new(scen_worker::WorkerScenario)),
+        "C05" => Some(Box::new(scen_dict::RoundTripScenario)),
+        "C06" => Some(Box::new(scen_dict::MappingScenario)),
+        "C08" => Some(Box::new(scen_dict::UserLexScenario)),
         "C09" => Some(Box::new(scen_image::ImageScenario)),
         "C13" => Some(Box::new(scen_worker::ReorderScenario)),
         _ => None,
